@@ -192,12 +192,23 @@ def check_converge(case):
                 dn_ = specs[op["d"] % len(specs)]["name"]
                 if dn_ == "SNOOPER":
                     continue
-                st_.in_loop(lambda: dep.drivers[snooper_index].snoop_device(dn_), settle=False)
+                d_ = op["d"] % len(specs)
+                # a driver that already follows the whole device may ask again for one property by name (snoop_device(dev, name)):
+                # it keeps following the device
+                named_ = None
+                if op.get("v") is not None and dn_ in snooped_all and dep.vectors[d_]:
+                    named_ = dep.vectors[d_][op["v"] % len(dep.vectors[d_])][1]["name"]
+                    labels.add("snoop-one-property-of-a-followed-device")
+                if named_ is not None:
+                    st_.in_loop(lambda: dep.drivers[snooper_index].snoop_device(dn_, named_), settle=False)
+                else:
+                    st_.in_loop(lambda: dep.drivers[snooper_index].snoop_device(dn_), settle=False)
                 if dn_ not in snooped_all:
                     snooped_all.append(dn_)
                 # its getProperties is answered to every client: for the network client this is a re-definition of the device
-                d_ = op["d"] % len(specs)
                 for g_, v_ in dep.vectors[d_]:
+                    if named_ is not None and v_["name"] != named_:
+                        continue
                     redef_pending.add((d_, v_["name"]))
                     state_race.discard((d_, v_["name"]))
                     need_blob.pop((d_, v_["name"]), None)
@@ -323,7 +334,7 @@ op_st = st.one_of(
     st.just({"op": "settle"}), st.just({"op": "settle"}),
     st.just({"op": "handshake"}),
     st.fixed_dictionaries({"op": st.just("republish_blob"), "k": st.integers(0, 7)}),
-    st.fixed_dictionaries({"op": st.just("snoop"), "d": st.integers(0, 5)}),
+    st.fixed_dictionaries({"op": st.just("snoop"), "d": st.integers(0, 5), "v": st.none() | st.integers(0, 5)}),
 )
 # a property of some device is re-enabled (every client overhears its definition), later the snooping driver starts to
 # follow that device
